@@ -49,6 +49,8 @@ def rounding(I, o, L):
         for c in guards:
             g = I.decide(P, c[0])
             if g is None:
+                g = U.eval_term(c[0], {leaf: v, A.W(leaf, 64): v}, o.path)
+            if g is None:
                 continue
             if (c[1] == "==" and g != c[2]) or (c[1] == "!=" and g in c[2]):
                 skip = True
@@ -56,6 +58,8 @@ def rounding(I, o, L):
         if skip:
             continue
         got = I.decide(P, L)
+        if got is None:
+            got = U.eval_term(L, {leaf: v, A.W(leaf, 64): v}, o.path)
         if got is None:
             continue
         n += 1
